@@ -2,7 +2,7 @@
     library model returns Ok = the file is a whole number of pages of the size
     announced at offset 40 and every page carries a valid checksum. *)
 From E57 Require Import Base.Prelude Model.Crc Model.Device Model.PagedReader Spec.PageSpec Spec.PageReadSpec
-  Model.Prog Model.QueueReader Model.FileBin Model.Tools.
+  Model.Prog Model.QueueReader Model.FileBin Model.ReaderOpen Model.Tools.
 From E57 Require Import Proofs.PageSpecLemmas Proofs.PagedReaderCache Proofs.ReaderProgSem.
 From Coq Require Import ZifyN ZifyNat ZifyBool.
 Ltac Zify.zify_post_hook ::= Z.div_mod_to_equations.
@@ -225,3 +225,30 @@ Proof.
     specialize (Hp (N.to_nat p)). rewrite N2Nat.id in Hp. rewrite page_ok_1024. apply Hp.
     apply in_seq. lia.
 Qed.
+
+(** * e57-extract-xml: status and standard output are the library's [raw_xml] *)
+Theorem extract_xml_tool_spec (phys : list N) :
+  match snd (ReaderOpen.raw_xml (dev_init phys None)) with
+  | Ok xml => extract_xml_tool phys = (true, xml)
+  | _ => extract_xml_tool phys = (false, [])
+  end.
+Proof. unfold extract_xml_tool. destruct (snd (ReaderOpen.raw_xml (dev_init phys None))); reflexivity. Qed.
+
+(** a directory: all files must validate *)
+Theorem check_crc_files_iff (files : list (list N)) :
+  check_crc_files files = true <-> Forall crc_file_ok files.
+Proof.
+  unfold check_crc_files. rewrite forallb_forall, Forall_forall.
+  split; intros H f Hf; apply check_crc_file_iff; apply H; exact Hf.
+Qed.
+
+(** a one-page file that announces 1024-byte pages validates; the same file
+    with one payload bit flipped, or cut short, does not *)
+Definition ex_crc_file : list N := paginate (zeros 40 ++ le_bytes 8 1024 ++ [1; 2; 3]).
+Example check_crc_example :
+  check_crc_file ex_crc_file = true /\
+  check_crc_file (overwrite ex_crc_file 100 [1]) = false /\
+  check_crc_file (take 1000 ex_crc_file) = false /\
+  check_crc_file (ex_crc_file ++ [0]) = false /\
+  check_crc_file (ex_crc_file ++ ex_crc_file) = true.
+Proof. vm_compute. repeat split. Qed.
